@@ -30,37 +30,37 @@ func DefaultConfig() *Config {
 }
 
 type Exec struct {
-	P      *Program
-	D      *Decls
-	S      *Sorts
-	Cfg    *Config
-	Top    *ssa.Function
-	TopC   *Contract
+	P       *Program
+	D       *Decls
+	S       *Sorts
+	Cfg     *Config
+	Top     *ssa.Function
+	TopC    *Contract
 	TopName string
 
-	Obls       []*Obligation
-	Abstracted map[string]int // notes on abstractions used
-	Inlined    map[string]int
-	ByContract map[string]int
-	Trusted    map[string]int
-	paths      int
-	truncated  bool
-	nref       int
-	loopInfo   map[*ssa.Function]*loopTable
-	effCache   map[*ssa.Function]int
-	Unsupported []string
-	oblCount   map[string]int
-	guardHits  map[string]int
-	GhostSorts map[string]string
-	shiftFacts [][3]Term
-	specConsts map[string]Val
-	specFuns   map[string]specFun
+	Obls          []*Obligation
+	Abstracted    map[string]int // notes on abstractions used
+	Inlined       map[string]int
+	ByContract    map[string]int
+	Trusted       map[string]int
+	paths         int
+	truncated     bool
+	nref          int
+	loopInfo      map[*ssa.Function]*loopTable
+	effCache      map[*ssa.Function]int
+	Unsupported   []string
+	oblCount      map[string]int
+	guardHits     map[string]int
+	GhostSorts    map[string]string
+	shiftFacts    [][3]Term
+	specConsts    map[string]Val
+	specFuns      map[string]specFun
 	nquant, nsort int
-	lastPerm   string
-	pureFuns   map[string]*pureFun
-	rets       []retState
-	inTwin     bool
-	nonEsc     map[*ssa.Function][]*ssa.Alloc
+	lastPerm      string
+	pureFuns      map[string]*pureFun
+	rets          []retState
+	inTwin        bool
+	nonEsc        map[*ssa.Function][]*ssa.Alloc
 }
 
 func NewExec(P *Program, cfg *Config) *Exec {
@@ -76,9 +76,9 @@ type loopTable struct {
 }
 
 type loopDesc struct {
-	header  *ssa.BasicBlock
-	ordinal int
-	body    map[int]bool // block indices in the natural loop
+	header    *ssa.BasicBlock
+	ordinal   int
+	body      map[int]bool // block indices in the natural loop
 	backPreds map[int]bool
 }
 
@@ -183,6 +183,9 @@ func (x *Exec) VerifyFunction(fn *ssa.Function, c *Contract) {
 		if _, ok := p.Type().Underlying().(*types.Pointer); ok {
 			st.assume(App(SBool, "<=", App(SInt, "rid", v.T), IntLit(0)))
 		}
+		if _, ok := p.Type().Underlying().(*types.Map); ok && v.T.Sort == SRef {
+			st.assume(App(SBool, "<=", App(SInt, "rid", v.T), IntLit(0)))
+		}
 		if v.T.Sort == SSlice {
 			st.assume(App(SBool, "<=", App(SInt, "rid", App(SRef, "s.base", v.T)), IntLit(0)))
 		}
@@ -195,6 +198,11 @@ func (x *Exec) VerifyFunction(fn *ssa.Function, c *Contract) {
 	}
 	for _, fv := range fn.FreeVars {
 		v := x.freshVal(st, fv.Name(), fv.Type())
+		if _, ok := fv.Type().Underlying().(*types.Pointer); ok && v.T.Sort == SRef {
+			// go/ssa captures variables by reference: a free variable is the address of the captured cell
+			st.assume(Not(Eq(v.T, TNull)))
+			st.assume(App(SBool, "<=", App(SInt, "rid", v.T), IntLit(0)))
+		}
 		fr.env[fv] = v
 		fr.freevars = append(fr.freevars, v)
 	}
@@ -765,8 +773,17 @@ func (x *Exec) jump(st *State, fr *Frame, b *ssa.BasicBlock) bool {
 		}
 		// havoc loop targets
 		x.havocLoop(st, fr, ld)
-		for phi := range phiVals {
+		for _, hin := range b.Instrs { // in block order: the numbering of fresh symbols is reproducible
+			phi, isPhi := hin.(*ssa.Phi)
+			if !isPhi {
+				break
+			}
+			if _, tracked := phiVals[phi]; !tracked {
+				continue
+			}
 			phiVals[phi] = x.freshVal(st, "phi."+phi.Comment, phi.Type())
+			// whatever object a merged variable refers to exists already: later allocations differ from it
+			x.sawRef(st, phiVals[phi])
 		}
 		// structural fact for range-index loops: index phi >= -1
 		for phi, v := range phiVals {
@@ -775,9 +792,32 @@ func (x *Exec) jump(st *State, fr *Frame, b *ssa.BasicBlock) bool {
 				// the index only advances while it is below the length of the ranged-over value,
 				// and lengths are bounded by 2^62 (type invariant of slices/strings)
 				st.assume(App(SBool, "<=", v.T, IntLitStr("4611686018427387904")))
+				// ... precisely: `if index+1 < n` with n evaluated before the loop, so index < n at the head
+				for _, hin := range b.Instrs {
+					cmp, ok := hin.(*ssa.BinOp)
+					if !ok || cmp.Op != token.LSS {
+						continue
+					}
+					inc, ok := cmp.X.(*ssa.BinOp)
+					if !ok || inc.Op != token.ADD || inc.X != ssa.Value(phi) {
+						continue
+					}
+					if n, ok := fr.env[cmp.Y]; ok && n.T.Sort == SInt {
+						st.assume(App(SBool, "<", v.T, n.T))
+					}
+				}
 			}
 		}
 		vars = x.phiScope(b, phiVals)
+		// a source variable merged at the loop head now has the (arbitrary) value of its phi: local(name)
+		// must not keep referring to the value it had before the loop
+		for phi, v := range phiVals {
+			if phi.Comment != "" && phi.Comment != "rangeindex" {
+				if _, bound := fr.names[phi.Comment]; bound {
+					fr.names[phi.Comment] = nameBinding{v: v}
+				}
+			}
+		}
 		for _, cl := range invs {
 			sc := x.scopeFor(st, fr)
 			sc.addVars(vars)
@@ -911,6 +951,7 @@ func (x *Exec) havocLoop(st *State, fr *Frame, ld *loopDesc) {
 	// Precise frame inference over the field-array heap: every array that some Store in the body can
 	// touch is havocked. We approximate by pointer type of the store address.
 	touched := map[string]bool{}
+	var updatedMaps []Val
 	for bi := range ld.body {
 		for _, in := range fr.fn.Blocks[bi].Instrs {
 			if s, ok := in.(*ssa.Store); ok {
@@ -918,13 +959,29 @@ func (x *Exec) havocLoop(st *State, fr *Frame, ld *loopDesc) {
 					touched[n] = true
 				}
 			}
-			if _, ok := in.(*ssa.MapUpdate); ok {
-				for n := range st.heap {
-					if strings.HasPrefix(n, "MD.") || strings.HasPrefix(n, "MV.") {
-						touched[n] = true
-					}
+			var um ssa.Value
+			if mu, ok := in.(*ssa.MapUpdate); ok {
+				um = mu.Map
+			}
+			if c, ok := in.(*ssa.Call); ok {
+				if b, ok := c.Call.Value.(*ssa.Builtin); ok && b.Name() == "delete" && len(c.Call.Args) > 0 {
+					um = c.Call.Args[0]
 				}
-				touched["MD.*"] = true
+			}
+			if um != nil {
+				// a map update writes one map: only the rows of that map are forgotten (a map
+				// created inside the body has no row to forget yet)
+				if mv, ok := fr.env[um]; ok && mv.T.Sort == SRef {
+					updatedMaps = append(updatedMaps, mv)
+				} else if inst, isInst := um.(ssa.Instruction); !(isInst && inst.Block() != nil && ld.body[inst.Block().Index]) {
+					// defined outside the loop but not evaluated: be conservative
+					for n := range st.heap {
+						if strings.HasPrefix(n, "MD.") || strings.HasPrefix(n, "MV.") {
+							touched[n] = true
+						}
+					}
+					touched["MD.*"] = true
+				}
 			}
 		}
 	}
@@ -1007,9 +1064,9 @@ func (x *Exec) havocLoop(st *State, fr *Frame, ld *loopDesc) {
 			if !ok {
 				continue
 			}
-			for n, arr := range st.heap {
+			for _, n := range sortedKeys(st.heap) {
 				if strings.HasPrefix(n, "MD.") || strings.HasPrefix(n, "MV.") {
-					keepMaps = append(keepMaps, keptMap{n, v.T, x.define(st, "keepmap", Select(arr, v.T))})
+					keepMaps = append(keepMaps, keptMap{n, v.T, x.define(st, "keepmap", Select(st.heap[n], v.T))})
 				}
 			}
 		}
@@ -1017,10 +1074,6 @@ func (x *Exec) havocLoop(st *State, fr *Frame, ld *loopDesc) {
 	defer func() {
 		for _, k := range keep {
 			_ = x.storeLV(st, k.lv, k.t)
-		}
-		for _, km := range keepMaps {
-			cur := x.heapArr(st, km.name, km.row.Sort)
-			_ = cur
 		}
 		for _, km := range keepMaps {
 			arr := x.heapArr(st, km.name, ArraySort(SRef, km.row.Sort))
@@ -1037,12 +1090,25 @@ func (x *Exec) havocLoop(st *State, fr *Frame, ld *loopDesc) {
 		}
 		st.heap["!epoch"] = ep
 	} else {
-		for n := range touched {
+		for _, n := range sortedKeys(touched) {
 			if n == "MD.*" {
 				continue
 			}
 			delete(st.heap, n)
 			st.heap["!ep:"+n] = x.D.Fresh("epoch", SInt)
+		}
+		if !touched["MD.*"] {
+			for _, mv := range updatedMaps {
+				mt, ok := mv.Typ.Underlying().(*types.Map)
+				if !ok {
+					continue
+				}
+				ks, vs := x.S.SortOf(mt.Key()), x.S.SortOf(mt.Elem())
+				dn, ds := "MD."+ks, ArraySort(SRef, ArraySort(ks, SBool))
+				vn, vsrt := "MV."+ks+"."+vs, ArraySort(SRef, ArraySort(ks, vs))
+				x.setHeap(st, dn, Store(x.heapArr(st, dn, ds), mv.T, x.D.Fresh("maprow", ArraySort(ks, SBool))))
+				x.setHeap(st, vn, Store(x.heapArr(st, vn, vsrt), mv.T, x.D.Fresh("maprow", ArraySort(ks, vs))))
+			}
 		}
 	}
 }
@@ -1265,10 +1331,11 @@ func (x *Exec) noPanic(fr *Frame) bool {
 
 // safety emits an F2 obligation when the function under contract demands no_panic.
 func (x *Exec) safety(st *State, fr *Frame, in ssa.Instruction, kind string, cond Term) {
-	if !x.noPanic(fr) {
-		return
+	if x.noPanic(fr) {
+		x.emit(st, fr, "F2", x.siteLabel(fr, in, kind), cond, in)
 	}
-	x.emit(st, fr, "F2", x.siteLabel(fr, in, kind), cond, in)
+	// execution continues past a run-time check only when it passed
+	st.assume(cond)
 }
 
 func (x *Exec) doPanic(st *State, fr *Frame, in ssa.Instruction, why string) {
